@@ -210,6 +210,33 @@ pub fn c05(cx: &mut Ctx) {
         }
         cx.op(&format!("resp {}", hx(&enc)));
     }
+    // a request that carried Expect: 100-continue, gave up waiting and sent its body: any head other than a
+    // bare 100 — other 1xx included — is handed out like every other head
+    for i in 0..(if cx.thorough { 60 } else { 15 }) {
+        let mut r = cx.case("gaveup");
+        let mut h = gen_head(&mut r, i % 3, false);
+        h.status = [101u16, 102, 103, 199, 200, 204, 404][i % 7];
+        let enc = h.enc();
+        cx.meta(&h.meta());
+        let gaveup = |cx: &mut Ctx| -> bool {
+            cx.rec.new_flow(&format!("POST HTTP/1.1 http://a.test/p 2 expect {} content-length 31", hx(b"100-continue")));
+            cx.op("proceed"); cx.op("write 4096"); cx.op("proceed");
+            if cx.rec.state() != "await100" { return false; }
+            cx.op("proceed");
+            cx.op("bwrite 78 16");
+            cx.op("proceed");
+            cx.rec.state() == "recvResponse"
+        };
+        if !gaveup(cx) { continue; }
+        for p in prefix_lengths(&mut r, enc.len()) {
+            let res = cx.op(&format!("resp {}", hx(&enc[..p])));
+            if res != "resp 0 none" && !gaveup(cx) { break; }
+        }
+        let mut full = enc.clone();
+        if i % 2 == 0 { full.extend_from_slice(tail); }
+        cx.op(&format!("resp {}", hx(&full)));
+        cx.op("canproceed");
+    }
     // every 3xx head cut at every position after its Location line (known finding D10 lives here)
     for i in 0..(if cx.thorough { 120 } else { 24 }) {
         let mut r = cx.case("redir");
@@ -291,6 +318,23 @@ pub fn c06(cx: &mut Ctx) {
                 cx.op("canproceed");
                 cx.op("proceed");
                 if cx.rec.state() == "recvBody" { cx.op("mode"); }
+            }
+        }
+    }
+    // other fields around the framing fields — empty-valued, whitespace-only, unusual names — change nothing
+    for before in ["X-Empty:\r\n", "Server: \r\n", "X-A: 1\r\nX-Trace:   \r\n", "x-b:\t\r\n"] {
+        for (fi, framing) in ["Content-Length: 5\r\n", "Transfer-Encoding: chunked\r\n", "Content-Length: 0\r\n", "Content-Length: abc\r\n", "CONTENT-LENGTH: 7\r\n", "transfer-ENCODING: Chunked\r\n"].iter().enumerate() {
+            for status in [200u16, 302, 404] {
+                for after in ["", "X-Z:\r\n"] {
+                    let _ = fi;
+                    cx.case("around");
+                    if !to_recv_response_any(cx, "GET") { continue; }
+                    let head = format!("HTTP/1.1 {} X\r\n{}{}{}\r\n", status, before, framing, after).into_bytes();
+                    cx.op(&format!("resp {}", hx(&head)));
+                    cx.op("canproceed");
+                    cx.op("proceed");
+                    if cx.rec.state() == "recvBody" { cx.op("mode"); }
+                }
             }
         }
     }
@@ -472,6 +516,35 @@ pub fn c11(cx: &mut Ctx) {
                         finish_exchange(cx, &stream, 0, 5);
                     }
                 }
+            }
+        }
+    }
+    // (6) Expect is list-valued: 100-continue among several Expect lines, in any position
+    for hs in [vec![("expect", &b"x-quota=strict"[..]), ("expect", &b"100-continue"[..])],
+               vec![("expect", &b"100-continue"[..]), ("expect", &b"x-quota=strict"[..])],
+               vec![("expect", &b"a=1"[..]), ("x-a", &b"1"[..]), ("expect", &b"b=2"[..]), ("expect", &b"100-continue"[..])]] {
+        for reqv in ["HTTP/1.1", "HTTP/1.0"] {
+            for path in 0..3 {
+                cx.case("multiexp");
+                let mut all = hs.clone();
+                all.push(("content-length", b"2"));
+                cx.rec.new_flow(&format!("POST {} http://a.test/p {}", reqv, super::hdrs(&all)));
+                cx.op("proceed"); cx.op("write 4096"); cx.op("proceed");
+                let stream: Vec<u8> = match path {
+                    1 => b"HTTP/1.1 403 Forbidden\r\nContent-Length: 0\r\n\r\n".to_vec(),
+                    _ => b"HTTP/1.1 100 Continue\r\n\r\nHTTP/1.1 200 OK\r\nContent-Length: 2\r\n\r\nhi".to_vec(),
+                };
+                let mut soff = 0;
+                if cx.rec.state() == "await100" {
+                    cx.op("keep100");
+                    if path < 2 {
+                        let res = cx.op(&format!("read100 {}", hx(&stream)));
+                        if let Some(n) = res.strip_prefix("count ") { soff = n.parse().unwrap_or(0); }
+                        cx.op("keep100");
+                    }
+                    cx.op("proceed");
+                }
+                finish_exchange(cx, &stream, soff, 2);
             }
         }
     }
